@@ -114,6 +114,7 @@ def build(tier, seed):
              Task(f"{PROP}.S.structural", PROP, "toposort / writeout / allocation", _with_replay(ordering.structural)),
              Task(f"{PROP}.S.templates", PROP, "template loops over sets", _templates),
              Task(f"{PROP}.S.workers", PROP, "GraphManager.output_graphs", lambda: ordering.serial_parallel_agreement(PROP)),
+             Task(f"{PROP}.S.graph_ident", PROP, "FortranGraph.__init__", lambda: __import__("contracts.names", fromlist=["x"]).graph_ident_obligation(PROP, lambda: __import__("bounded.c10", fromlist=["x"]).graph_files())),
              Task(f"{PROP}.S.stale_output", PROP, "output directory excluded from discovery", lambda: __import__("contracts.confine", fromlist=["x"]).output_dir_excluded(PROP, lambda: __import__("bounded.c12", fromlist=["x"]).rerun_cases())),
              bounded_task(), rerun_task(), workers_task(), pages_task()]
     meta = {
